@@ -1,3 +1,4 @@
+import PcfgVerif.Generated.Session
 import PcfgVerif.Generated.PrintSites
 import PcfgVerif.Properties.ExpandCore
 /-!
@@ -56,5 +57,14 @@ theorem C09_limit_session (gen : PT → Option Int → ERes) (hgen : ExactLimit 
 /-- non-vacuity: limit 3 falls inside the mask loop of `A2 C2 D1` -/
 example : (createGuesses ExpandExample.up ExpandExample.gr (fun _ => none) ExpandExample.pt0 (some 3)).out =
     (productSpec ExpandExample.up ExpandExample.gr [] ExpandExample.pt0).take 3 := by decide
+
+/-- **the guess limit only counts down and ends the run** (regenerated from the source): every statement of `CrackingSession.run` (and of
+the methods it calls) whose execution depends on a test that reads `limit` - the `if limit:` blocks with their `elif` / `else` branches and
+everything nested in them - is the count-down itself, a message on stderr, or the end of the run.  So a run with `--limit` is the run
+without it stopped early: nothing written to the session files (the `omen_guess_number` option in particular) and no choice of the main
+loop depends on whether a limit was given - which is what lets the session model, which has no limit, stand for limited sessions too -/
+theorem C09_limit_only_counts_down_and_stops :
+    ∀ k ∈ Generated.Session.limitDependentStatements, k ∈ ["break", "count-down", "pass", "print-stderr", "return"] := by
+  decide
 
 end Pcfg.C09
